@@ -103,23 +103,36 @@ class Session:
         return lpgen.blocks(out)
 
     # ---- step 2: floating-point runs
-    def run(self, lps, cfgs):
+    def run(self, lps, cfgs, hists=None):
         txt = ""
         for k, p in enumerate(lps):
             txt += p.text(str(k)) + "\n"
             for c, cfg in enumerate(cfgs[k]):
                 txt += "RUN %d %s\n" % (c, lpgen.cfg_text(cfg))
+            for h, steps in enumerate((hists or {}).get(k, [])):
+                txt += "HIST h%d %s\n" % (h, " ".join(steps))
         rc, out, err = lpgen.run_harness(self.exe, txt, self.tag + "-run")
         B = lpgen.blocks(out)
         runs = {}
+        self.hruns = {}
         for k in range(len(lps)):
             runs[k] = [lpgen.parse_kv(l) for l in B.get(str(k), []) if l.startswith("RUN ")]
+            self.hruns[k] = [lpgen.parse_kv(l) for l in B.get(str(k), []) if l.startswith("HRUN ")]
         crashed = None
         if rc != 0:
             # the first run without an observation line
             for k in range(len(lps)):
                 if len(runs[k]) < len(cfgs[k]):
                     crashed = (k, len(runs[k]))
+                    break
+                want = sum(st.count("OPT") for st in (hists or {}).get(k, []))
+                if len(self.hruns[k]) < want:
+                    # which history: the first one with fewer reports than solves
+                    for h, st in enumerate(hists[k]):
+                        got = sum(1 for ru in self.hruns[k] if ru["_id"].split("!")[0].startswith("h%d." % h))
+                        if got < st.count("OPT"):
+                            crashed = (k, "h%d" % h)
+                            break
                     break
         return runs, rc, crashed
 
@@ -128,8 +141,11 @@ class Session:
         q = ""
         for k, p in enumerate(lps):
             q += p.text(str(k)) + "\n"
-            for ru in runs[k]:
+            for ru in list(runs[k]) + list(getattr(self, "hruns", {}).get(k, [])):
                 rid = ru["_id"].split("!")[0]
+                if "drvp" in ru and "drvf" in ru:
+                    # the control trace of the solve driver, replayed through the Coq model of solvereal.hpp (DriverModel.v)
+                    q += "Q d%s driver %s %s %s\n" % (rid, ru["drvp"], ru["drvf"], ru.get("drv", ""))
                 if ru["status"] == "OPTIMAL" and all(t in ru for t in ("x", "s", "y", "d", "obj")):
                     q += "Q o%s opttol %s %s %s %s %s %s %s %s %s\n" % (
                         rid, qs(TP), qs(TD), qs(TC), qs(TV), vtxt(lpgen.vec_dy(ru["x"])), vtxt(lpgen.vec_dy(ru["s"])),
@@ -219,7 +235,86 @@ def replay_of(p, cfg, ru, extra=None):
     return d
 
 
-def run_in_chunks(ck, exe, model, lps, cfgs, chunk=60, workers=8):
+def gen_history(r, long_p=0.08):
+    """steps of one HIST command: several solves of one LP on one object with parameter changes in between.
+    Only parameters are changed, so every answer is still an answer about the same LP."""
+    n = r.randrange(12, 16) if r.random() < long_p else r.randrange(2, 6)
+    steps = []
+    for k, vs in lpgen.ALGO_SPACE.items():
+        if r.random() < 0.4:
+            steps.append("%s=%s" % (k, r.choice(vs)))
+    if r.random() < 0.5:
+        steps.append("ensureray=1")
+    for i in range(n):
+        steps.append("OPT")
+        if i == n - 1:
+            break
+        m = r.random()
+        if m < 0.45:
+            steps.append("CLB")
+        for k, vs in (("simplifier", [0, 1, 3]), ("scaler", [0, 1, 2, 3, 4, 5, 6]), ("persistentscaling", [0, 1]), ("ensureray", [0, 1]),
+                      ("representation", [0, 1, 2]), ("algorithm", [0, 1]), ("iterlimit", [-1, -1, 0, 1, 2, 3]),
+                      ("objlimit_upper", ["1e100", "1e100", "-5", "0", "7", "50"]), ("objlimit_lower", ["-1e100", "-1e100", "-50", "0", "5"])):
+            if r.random() < 0.22:
+                steps.append("%s=%s" % (k, r.choice(vs)))
+    return steps
+
+
+def hist_cfg(steps, n):
+    """the parameter settings in effect at the n-th OPT of a history"""
+    cfg, seen = {}, 0
+    for t in steps:
+        if t == "OPT":
+            if seen == n:
+                return cfg
+            seen += 1
+        elif "=" in t:
+            k, v = t.split("=", 1)
+            try:
+                cfg[k] = int(v)
+            except ValueError:
+                cfg[k] = v
+    return cfg
+
+
+def limits_set(cfg):
+    return (cfg.get("iterlimit", -1) != -1 or str(cfg.get("objlimit_upper", "1e100")) != "1e100"
+            or str(cfg.get("objlimit_lower", "-1e100")) != "-1e100")
+
+
+def driver_verdicts(ck, lps, cfgs, runs, hruns, ans, skipped, hists=None):
+    """correspondence of the solve driver with coq/DriverModel.v on every recorded optimize() call"""
+    for k, p in enumerate(lps):
+        if k in skipped:
+            continue
+        for ru in list(runs[k]) + list(hruns.get(k, [])):
+            if "drvp" not in ru:
+                continue
+            rid = ru["_id"].split("!")[0]
+            a = ans[k].get("d" + rid)
+            ck.count("driver-trace:" + ("agree" if a == "true" else "disagree"))
+            ncalls = ru.get("drv", "").count(";10,")
+            ck.count("driver-inner-solves:%d" % ncalls)
+            if a == "true":
+                continue
+            kind = (a or "missing").split(":")[0]
+            hist = None
+            if rid.startswith("h") and hists is not None:
+                hist = hists[k][int(rid[1:].split(".")[0])]
+            cfg = cfgs[k][int(rid)] if rid.isdigit() else {"history": hist, "solve": rid}
+            if kind in ("space", "ungated"):
+                what = ("the solution stored with the final status is not in the user's problem space" if kind == "space" else
+                        "OPTIMAL is reported for a solution that was neither computed on the user's LP itself nor passed _verifySolutionReal")
+                ck.violation("driver-%s" % kind, what + " (model of the solve driver, theorems C01_optimal_is_gated / C01_stored_solution_in_user_space) under %s" % (cfg,),
+                             replay_of(p, cfg if rid.isdigit() else {}, ru, {"history": hist, "model_answer": a}))
+            else:
+                ck.violation("driver-correspondence:%s" % kind,
+                             "the control trace of the solve driver (solvereal.hpp) differs from coq/DriverModel.v: %s under %s" % (a, cfg),
+                             replay_of(p, cfg if rid.isdigit() else {}, ru, {"history": hist, "model_answer": a, "correspondence": "DriverModel.replay"}),
+                             no_input=True)
+
+
+def run_in_chunks(ck, exe, model, lps, cfgs, chunk=60, workers=8, hists=None):
     """classify + run + judge in parallel chunks; returns per-LP dicts keyed by the global LP index.
     A chunk whose checker run failed is dropped from judgement (reported once as checker-crash)."""
     import concurrent.futures as cf
@@ -231,15 +326,17 @@ def run_in_chunks(ck, exe, model, lps, cfgs, chunk=60, workers=8):
         sub = [lps[k] for k in part]
         subcfg = {j: cfgs[k] for j, k in enumerate(part)}
         classes, exs = S.classify(sub)
-        runs, rc, crashed = S.run(sub, subcfg)
+        runs, rc, crashed = S.run(sub, subcfg, {j: hists[k] for j, k in enumerate(part)} if hists else None)
         ans = S.judge_queries(sub, runs)
-        return part, classes, exs, runs, rc, crashed, ans, S.checker_failed
+        return part, classes, exs, runs, rc, crashed, ans, S.checker_failed, S.hruns
 
     classes, exs, runs, ans, crashes, skipped = {}, {}, {}, {}, [], set()
+    ck.hruns = {}
     with cf.ThreadPoolExecutor(max_workers=workers) as ex:
-        for part, c, e, r, rc, crashed, a, failed in ex.map(work, parts):
+        for part, c, e, r, rc, crashed, a, failed, hr in ex.map(work, parts):
             for j, k in enumerate(part):
                 classes[k], exs[k], runs[k], ans[k] = c[j], e[j], r[j], a[j]
+                ck.hruns[k] = hr.get(j, [])
                 if failed:
                     skipped.add(k)
             if crashed is not None:
